@@ -130,4 +130,21 @@ def tieAtMaxB (bpms : List Tp) (omax : Rat) : Bool :=
     bpms.any (fun q => decide (q.time < p.time) && decide (q.bpm ≠ p.bpm) &&
       bpms.all (fun r => decide (r.time < p.time → r.time ≤ q.time)))
 
+/-! ### chart level: what a call must return on the chart as it is at the time of the call -/
+
+/-- the answer of a call is right for the chart `c`: first / last object are the bounds of its stacked offsets -/
+def AnswerOk (c : Chart) (q : Call) (a : Answer) : Prop :=
+  ∃ lo hi, c.bounds = some (lo, hi) ∧
+    match q with
+    | .dominant => ∃ v, a = .bpm (some v) ∧ IsDominant c.bpms hi v
+    | .speed ov => ∃ ref out, a = .speeds (some out) ∧ IsRef c.bpms hi ov ref ∧
+        speedOkB c.hasSv c.bpms c.svs lo hi ref out = true
+    | .normalize ov => ∃ ref out, a = .svs (some out) ∧ IsRef c.bpms hi ov ref ∧ SvNormOk c.bpms ref out
+
+/-- the override of a call, if any -/
+def Call.override : Call → Option Rat
+  | .dominant => none
+  | .speed ov => ov
+  | .normalize ov => ov
+
 end Reamber.Analysis
